@@ -31,6 +31,9 @@ type C13Case struct {
 	// Typed: additionally a source of a typed container flavour ([]Object, []List, map[string]Object,
 	// map[string]List) is converted; its entries are containers or nil interface values
 	Typed *TypedSrc `json:"typed,omitempty"`
+	// Reslice > 0: additionally a source is converted that holds one []any together with a prefix and
+	// a suffix re-slice of it (three slice headers over one backing array, cut at Reslice mod (len+1))
+	Reslice int `json:"reslice,omitempty"`
 }
 
 type TypedSrc struct {
@@ -90,6 +93,9 @@ func GenC13(t *rapid.T) *C13Case {
 			ts.Keys = append(ts.Keys, k)
 		}
 		c.Typed = ts
+	}
+	if oneIn(t, 8, "reslice") {
+		c.Reslice = 1 + genRaw(t)
 	}
 	n := drawInt(t, 1, 6, "nmods")
 	for i := 0; i < n; i++ {
@@ -475,8 +481,11 @@ func checkNative(c *C13Case, st *Stats) error {
 				op := "set"
 				if _, isList := ids[m.Node%len(ids)].(at.List); isList {
 					op = []string{"add", "replace", "delete", "insert", "clear"}[m.A%5]
-				} else if m.Op == "delete" {
-					op = "unset"
+				} else {
+					op = []string{"set", "unset", "rekey", "clearrefill", "noop"}[m.A%5]
+					if m.Op == "delete" && m.A%5 == 0 {
+						op = "unset"
+					}
 				}
 				ok = applyCloneMut(cont, ids[m.Node%len(ids)], CloneMut{Op: op, A: m.A, Key: "zz-new", V: ValSpec{K: KString, S: "modified"}})
 			case 1:
@@ -774,9 +783,65 @@ func checkTypedSource(ts *TypedSrc, st *Stats) error {
 	return nil
 }
 
+// checkResliced converts sources in which several slice headers share one backing array (a slice, a
+// prefix and a suffix of it) and one map occurs twice: every position must get the content of ITS header.
+func checkResliced(c *C13Case, st *Stats) error {
+	rowsV := c.Tree
+	if rowsV.K != KList {
+		rowsV = VList(c.Tree, VInt(1), VStr("two"))
+	}
+	rows, ok := nativeWithFlavours(rowsV, 0, 0).([]any)
+	if !ok {
+		return nil
+	}
+	k := (c.Reslice - 1) % (len(rows) + 1)
+	head, tail := V{K: KList, L: rowsV.L[:k]}, V{K: KList, L: rowsV.L[k:]}
+	shared := map[string]any{"n": 1}
+	sharedV := VObj(Pair{"n", VInt(1)})
+	wantL := VList(rowsV, head, tail, sharedV, sharedV)
+	wantO := VObj(Pair{"all", rowsV}, Pair{"head", head}, Pair{"tail", tail}, Pair{"m1", sharedV}, Pair{"m2", sharedV})
+	var gotL, gotO V
+	var natL, natO any
+	p, panicked := catch(func() {
+		l := at.NewListFrom([]any{rows, rows[:k], rows[k:], shared, shared})
+		o := at.NewObjectFrom(map[string]any{"all": rows, "head": rows[:k], "tail": rows[k:], "m1": shared, "m2": shared})
+		var err error
+		if gotL, err = Snap(l); err != nil {
+			panic(err)
+		}
+		if gotO, err = Snap(o); err != nil {
+			panic(err)
+		}
+		natL, natO = l.NativeSlice(), o.NativeDict()
+	})
+	if panicked {
+		return errf("conversion of a source holding a slice together with re-slices of it panicked: %v", p)
+	}
+	if !EqVBits(gotL, wantL) {
+		return errf("NewListFrom([rows, rows[:%d], rows[%d:], m, m]) holds %s, expected %s", k, k, gotL.Show(), wantL.Show())
+	}
+	if !EqVBits(sortedV(gotO), sortedV(wantO)) {
+		return errf("NewObjectFrom({all: rows, head: rows[:%d], tail: rows[%d:], m1: m, m2: m}) holds %s, expected %s", k, k, gotO.Show(), wantO.Show())
+	}
+	var foreign []string
+	if v := normNative(natL, &foreign, "$"); !EqVBits(v, wantL) || len(foreign) > 0 {
+		return errf("NativeSlice of a container built from a slice and its re-slices is %s, expected %s", v.Show(), wantL.Show())
+	}
+	if v := normNative(natO, &foreign, "$"); !EqVBits(sortedV(v), sortedV(wantO)) || len(foreign) > 0 {
+		return errf("NativeDict of a container built from a slice and its re-slices is %s, expected %s", v.Show(), wantO.Show())
+	}
+	st.Count("resliced_source")
+	return nil
+}
+
 func CheckC13(c *C13Case, st *Stats) error {
 	if c.Tree.K != KList && c.Tree.K != KObject {
 		return nil
+	}
+	if c.Reslice > 0 {
+		if err := checkResliced(c, st); err != nil {
+			return err
+		}
 	}
 	if c.Typed != nil {
 		if err := checkTypedSource(c.Typed, st); err != nil {
@@ -837,6 +902,6 @@ func CheckC13(c *C13Case, st *Stats) error {
 
 func init() {
 	Register("C13",
-		"native trees of map[string]any / []any / scalars (depth <= 4, empties and nil maps/slices included, floats including NaN and the infinities) with typed flavours ([]string, []int, map[string]float64, ...) and sized numbers (int8, uint16, int32, int64, float32) where the content allows; the container is built with NewObjectFrom/NewListFrom; one case in six additionally converts a []Object / []List / map[string]Object / map[string]List source (directly or nested in a []any / map[string]any) whose entries are containers or nil interface values (non-nil entries stored by reference, nil entries become nil elements, exports plain and equal, no shared slots). Oracle: container content == tree; NativeDict/NativeSlice hold only map[string]any, []any and canonical scalars (reflective walk) and equal the tree bit-exactly (also for a container built with Add/Set); Dict()/Slice() have exactly the keys/indices with entries == Get (identity for containers). Then 1-6 modifications of one of four parties (container at any nested node; native export at any nested map/slice; Dict/Slice export; the source map/slice at any nested level): after each, every OTHER party's snapshot is unchanged. After every modification fresh exports must describe the container as it is then. One case in six additionally stores one container instance at two positions, and wraps nested containers in user-defined derived types: the native export must still be plain data equal to the content. Non-trivial = tree depth >= 2 and at least one applied modification, or the shared-instance variant. Distinct = distinct FNV-64a hash of the case JSON.",
+		"native trees of map[string]any / []any / scalars (depth <= 4, empties and nil maps/slices included, floats including NaN and the infinities) with typed flavours ([]string, []int, map[string]float64, ...) and sized numbers (int8, uint16, int32, int64, float32) where the content allows; the container is built with NewObjectFrom/NewListFrom; one case in six additionally converts a []Object / []List / map[string]Object / map[string]List source (directly or nested in a []any / map[string]any) whose entries are containers or nil interface values (non-nil entries stored by reference, nil entries become nil elements, exports plain and equal, no shared slots). Oracle: container content == tree; NativeDict/NativeSlice hold only map[string]any, []any and canonical scalars (reflective walk) and equal the tree bit-exactly (also for a container built with Add/Set); Dict()/Slice() have exactly the keys/indices with entries == Get (identity for containers). One case in eight converts a source in which a []any occurs together with a prefix and a suffix re-slice of it (one backing array) and one map occurs twice. Then 1-6 modifications of one of four parties (container at any nested node, including re-keying an object and emptying and refilling it; native export at any nested map/slice; Dict/Slice export; the source map/slice at any nested level): after each, every OTHER party's snapshot is unchanged. After every modification fresh exports must describe the container as it is then. One case in six additionally stores one container instance at two positions, and wraps nested containers in user-defined derived types: the native export must still be plain data equal to the content. Non-trivial = tree depth >= 2 and at least one applied modification, or the shared-instance variant. Distinct = distinct FNV-64a hash of the case JSON.",
 		GenC13, CheckC13)
 }
